@@ -50,6 +50,7 @@ TIERS = {
 NAMES = ["a", "b", "c", "x y", ".def_0"]
 ONESHOT = ("is_sat", "is_valid", "is_unsat")
 FAULTS = ["unknown", "error", "die_before", "die_at_start", "stall"]
+# separate: the member answers the query and dies when first asked for a value
 
 
 def _member_profile(tape, d, faulty, all_fail=False):
@@ -57,6 +58,11 @@ def _member_profile(tape, d, faulty, all_fail=False):
     pf = {"check_delay": delay, "latency": tape.choice([0.0, 0.0, 1e-4], "latency"),
           "short_reads": tape.chance(1, 3, "short_reads"),
           "model_policy": tape.choice(["uniform", "first", "last"], "model_policy")}
+    if faulty and tape.chance(1, 8, "member.dies_after_answer"):
+        # the statement promises no value from a survivor that died; the call must still not block forever
+        pf["die_before_name"] = ["get-value", 1]
+        pf["fault_after_answer"] = True
+        return pf
     if faulty and (all_fail or tape.chance(1, 2, "member.faulty")):
         fk = tape.choice(FAULTS if not all_fail else FAULTS[:4], "fault.kind")
         pf["fault"] = fk
@@ -214,10 +220,13 @@ def execute(plan, tape):
         env.factory.add_generic_solver(nm, ["ref", nm], [QF_BV])
 
     def profile_fn(key, owner):
-        # the member is identified by the name of its process: "<index> (<solver name>)"
-        try:
-            idx = int(owner.name.split(" ")[0])
-        except (AttributeError, ValueError):
+        # the member is identified by the order in which the portfolio created its processes for
+        # the current solve (not by process names, which are an internal detail)
+        idx = None
+        for j, sp in enumerate(net.procs):
+            if sp.task is owner:
+                idx = j - state.get("proc_base", 0)
+        if idx is None or idx < 0:
             return None
         si = max(state["solve_no"] - 1, 0)
         lst = plan["profiles"][idx % len(plan["profiles"])]
@@ -268,7 +277,7 @@ def execute(plan, tape):
         for p in incarnation_procs(si):
             s = p.solver
             k_ = "%d:%s" % (p.member_idx, p.key)
-            if s.faults_fired or p.profile.get("die_at_start"):
+            if (s.faults_fired and not p.profile.get("fault_after_answer")) or p.profile.get("die_at_start"):
                 out[k_] = "stall" if s.faults_fired.get("stall") or p.profile.get("fault") == "stall" else "fail"
             else:
                 out[k_] = "stall" if p.profile.get("fault") == "stall" else "answer"
@@ -278,6 +287,7 @@ def execute(plan, tape):
         """a portfolio query; fs_truth: blueprints whose satisfiability is the truth"""
         si = state["solve_no"]
         state["solve_no"] += 1
+        state["proc_base"] = len(net.procs)
         st = member_status(si)
         steps0, choices0 = kernel.steps, kernel.choices
         try:
@@ -309,6 +319,10 @@ def execute(plan, tape):
         if kernel.choices > choices0 and nmem >= 2:
             state["nontrivial"] = True
         return ("ok", got)
+
+    def _survivor_died():
+        return any(p.solver.faults_fired.get("die_before_reply") and p.profile.get("fault_after_answer")
+                   for p in world.procs)
 
     def run():
         pf = new_portfolio()
@@ -366,7 +380,13 @@ def execute(plan, tape):
                     continue
                 if o.get("pause"):
                     kernel.sleep(o["pause"])
-                mdl = api("get_model", pf.get_model)
+                try:
+                    mdl = api("get_model", pf.get_model)
+                except Violation as v_:
+                    if ":raised:" in v_.sig and _survivor_died():
+                        probe("value_request_raised_after_survivor_died")
+                        return
+                    raise
                 syms = {}
                 for f in live():
                     bp.symbols_of(f, syms)
@@ -399,7 +419,13 @@ def execute(plan, tape):
                 a = {}
                 for n in syms:
                     if n in known:
-                        v = api("get_value", pf.get_value, mgr.get_symbol(n))
+                        try:
+                            v = api("get_value", pf.get_value, mgr.get_symbol(n))
+                        except Violation as v_:
+                            if ":raised:" in v_.sig and _survivor_died():
+                                probe("value_request_raised_after_survivor_died")
+                                return
+                            raise
                         if v not in mgr:
                             raise Violation("C19:value-foreign", "get_value returned a formula of another manager")
                         a[n] = v.constant_value()
@@ -437,6 +463,10 @@ def execute(plan, tape):
             si = state["solve_no"] - 1
             act = actual_status(max(si, 0))
             stalled = [k for k, v in act.items() if v == "stall"]
+            if not stalled and _survivor_died():
+                raise Violation("C19:blocks-forever:survivor-died",
+                                "a value request never returned after the surviving member died (%s): %s" %
+                                (d.reason, d.detail[:200]))
             if stalled:
                 # a stalled member is still running: waiting for it (blocking, or polling
                 # until the step / virtual-time budget is exhausted) is legitimate
